@@ -1060,10 +1060,13 @@ def hexs(bs):
     return "".join("%02x" % b for b in bs) or "-"
 
 
-def framer_exe(st, cuts, rng, out, source, raw=False):
-    """cuts: increasing offsets where the stream is cut into input buffers."""
+def framer_exe(st, cuts, rng, out, source, raw=False, defer=None):
+    """cuts: increasing offsets where the stream is cut into input buffers; defer: the sink answers the flow
+    format request only after that many more inputs (a sink behind a queue), None: from inside register_request."""
     stream = st["stream"]
-    cmds = ["new " + out]
+    cmds = (["defer %d" % defer] if defer is not None else []) + ["new " + out]
+    if defer is not None:
+        source += " (flow format answered %d input(s) later)" % defer
     last = 0
     for c in list(cuts) + [len(stream)]:
         if c > last:
@@ -1094,6 +1097,15 @@ def framer_executions(rng, quick):
     for out in ("len4", "len2", "nalu"):
         exes.append(framer_exe(st, [], None, out, "directed whole"))
         exes.append(framer_exe(st, [a[0] for a in st["aus"][1:]], None, out, "directed per access unit"))
+    # the flow format answer arrives between two halves of the framer's work: after the input returns, or later
+    # (the whole stream in one buffer is the recorded finding: nothing follows the answer, see KNOWN_FINDINGS.json)
+    exes.append(framer_exe(st, [], None, "annexb", "directed whole", defer=2))
+    for out in ("annexb", "len4"):
+        for d in (0, 1, 2):
+            exes.append(framer_exe(st, [a[0] for a in st["aus"][1:]], None, out, "directed per access unit", defer=d))
+            exes.append(framer_exe(st, list(range(1, n)), None, out, "directed octets", defer=d))
+            for step in (3, 7, 16):
+                exes.append(framer_exe(st, list(range(step, n, step)), None, out, "directed buffers of %d" % step, defer=d))
     # a stream that begins with a 3-octet start code
     for k in range(2):
         stw = h264_stream(vlib.Rng(40 + k), n_au=5, pre=0, small=True, sps_switch=True)
@@ -1197,6 +1209,11 @@ def framer_symptom(e, line):
     # the stream begins with access units that come before the first parameter sets
     aus = m.get("aus", [])
     pre = ";after-undecodable-access-units" if aus and aus[0][2] == 0 and any(a[2] for a in aus) else ""
+    if e.source.startswith("directed whole (flow format answered"):
+        # the recorded finding, identified by its input: the whole stream in one buffer, the flow format answered
+        # after that buffer (nothing follows the answer): the scan is not resumed - the first access unit comes
+        # out cut short when the pipe is released, the others never
+        return "h264f;flow-format-answered-later;whole-stream-in-one-buffer", ev
     return "h264f;%s;%s%s%s" % (sym, cut, pre, lead3), ev
 
 
